@@ -152,7 +152,8 @@ def run(ctx, rep):
     rej = [tokenlevel.concretise(c["toks"], "\n") for c in tok if c["o"]["verdict"] == "reject" and len(c["toks"]) >= 4]
     mis = [tokenlevel.concretise(c["toks"], "\n") for c in tok if c["o"]["verdict"] == "accept" and c["o"]["errs"]]
     texts += rej[:: max(1, len(rej) // (40 if ctx.thorough else 8))] + mis[:: max(1, len(mis) // (40 if ctx.thorough else 8))]
-    texts += ["a = {1.5, 2}\nb = 2001-01-01\nEND\n", "s = 'x'\nq = 5 <m>\nGROUP = g\n  t = 12:00:00\nEND_GROUP\nEND\n", "a = \"é\"\nEND\n"]
+    texts += ["\ufeffNAME = 1\nb = 'x'\nEND\n", "a = " + "(" * 2500 + "1" + ")" * 2500 + "\nEND\n", "S = {1.5, 2.5}\nEND\n",
+              "a = {1.5, 2}\nb = 2001-01-01\nEND\n", "s = 'x'\nq = 5 <m>\nGROUP = g\n  t = 12:00:00\nEND_GROUP\nEND\n", "a = \"é\"\nEND\n"]
     for f in sorted(glob.glob(os.path.join(REPO, "tests", "data", "**", "*"), recursive=True)):
         if os.path.isfile(f) and os.path.getsize(f) < 20000:
             b = open(f, "rb").read()
